@@ -38,6 +38,10 @@ def run_filter_program(prog, trace_id, keep_state=True):
             event = rig.at(step[1], step[2], step[3] if len(step) > 3 else False)
         elif step[0] == "addr":
             event = rig.add_region(step[1])
+        elif step[0] == "updr":
+            event = rig.update_region(step[1])
+        elif step[0] == "delr":
+            event = rig.delete_region(step[1])
         else:
             raise ValueError("unknown step %r" % (step,))
         event["same"] = (before == event["st"])
@@ -67,13 +71,21 @@ def program_to_json(prog):
 DEFAULT_XG = {"G4": "exclude", "M204": "merge", "M205": "merge", "M117": "last", "M73": "merge"}
 
 
+MISSING = -2000000000      # a region attribute that is absent from a payload
+
+
 def region_from_dict(data):
+    """Region of a notification / GET payload (an absent attribute becomes MISSING)."""
     from harness.rig import nat
+
+    def field(key):
+        value = nat(data.get(key))
+        return MISSING if value is None else value
     if data.get("type") == "CircularRegion":
-        return {"t": "circ", "id": str(data.get("id")), "a": nat(data["cx"]), "b": nat(data["cy"]),
-                "c": nat(data["r"]), "d": 0}
-    return {"t": "rect", "id": str(data.get("id")), "a": nat(data["x1"]), "b": nat(data["y1"]),
-            "c": nat(data["x2"]), "d": nat(data["y2"])}
+        return {"t": "circ", "id": str(data.get("id")), "a": field("cx"), "b": field("cy"),
+                "c": field("r"), "d": 0}
+    return {"t": "rect", "id": str(data.get("id")), "a": field("x1"), "b": field("y1"),
+            "c": field("x2"), "d": field("y2")}
 
 
 def _store_records(store, g90e):
@@ -112,6 +124,8 @@ def run_plugin_history(hist, trace_id, keep_state=True):
         event.setdefault("shape", True)
         return event
 
+    from harness.rig import DEFAULT_AT
+    applied_at = [list(DEFAULT_AT)]
     for step in hist.steps:
         before = alpha_state(plugin.state)
         kind = step[0]
@@ -121,9 +135,11 @@ def run_plugin_history(hist, trace_id, keep_state=True):
                    "mayShrinkRegionsWhilePrinting": "mayShrink",
                    "enteringExcludedRegionGcode": "enter",
                    "exitingExcludedRegionGcode": "exit",
-                   "extendedExcludeGcodes": "xg"}[step[1]]
-            store[key] = step[3] if key in ("enter", "exit", "xg") else step[2]
-            cf, cfx = _store_records(store, hist.g90e)
+                   "extendedExcludeGcodes": "xg",
+                   "atCommandActions": "at",
+                   "g90InfluencesExtruder": "g90e"}[step[1]]
+            store[key] = step[3] if key in ("enter", "exit", "xg", "at") else step[2]
+            cf, cfx = _store_records(store, store.get("g90e", hist.g90e))
             event = {"ev": "set", "store": cf, "storex": cfx}
         elif kind == "pev":
             event = {"ev": "pev", "name": step[1]}
@@ -131,6 +147,8 @@ def run_plugin_history(hist, trace_id, keep_state=True):
                 rig.event(step[1])
             except Exception as err:  # pylint: disable=broad-except
                 event["exc"] = type(err).__name__
+            if step[1] == "SettingsUpdated" and "at" in store:
+                applied_at[0] = [tuple(x) for x in store["at"]]
         elif kind == "g":
             event = {"ev": "g", "in": alpha_cmd(step[1], step[2] if len(step) > 2 else None)}
             try:
@@ -144,12 +162,13 @@ def run_plugin_history(hist, trace_id, keep_state=True):
             event["hascode"] = octo_gcode(step[1])[0] is not None
         elif kind == "at":
             streaming = step[3] if len(step) > 3 else False
-            from harness.rig import DEFAULT_AT
             import re as _re
             acts = []
             if not streaming:
-                for cmd, pattern, action in DEFAULT_AT:
-                    if cmd == step[1] and _re.compile(pattern).match(step[2] or ""):
+                # classified with the table that is in effect (applied by SettingsUpdated)
+                for cmd, pattern, action in applied_at[0]:
+                    if cmd == step[1] and (pattern is None
+                                           or _re.compile(pattern).match(step[2] or "")):
                         acts.append("enable" if action == "enable_exclusion" else "disable")
             event = {"ev": "at", "in": {"txt": "@" + step[1] + " " + step[2], "acts": acts,
                                         "streaming": bool(streaming)}}
